@@ -438,6 +438,10 @@ class Run:
         if nonempty:
             values = [(v, v in news) for v in self.vals_of(tag)]
         was_inflight = (tag, t) in self.inflight
+        if was_inflight and (tag, t) not in self.put:
+            # an answer for a task message that was never written: no worker can produce it; the history is
+            # outside the protocol, the monitors stop judging it
+            self.tainted = True
         self.put.discard((tag, t))
         if self.chron_fault:
             # infrastructure fault while the result is booked: the exception leaves Hand._res; whatever the
@@ -866,24 +870,29 @@ def run_history(env, res, want, algs, ops, r, lines, pending, tag):
         elif kind == 'disp':
             run.do_dispatch()
         elif kind == 'reply':
-            if not run.inflight:
+            # only a unit whose task message exists can be answered by a worker (after a database fault
+            # inside dispatch a released unit has none until the next tick)
+            sent = [u for u in run.inflight if u in run.put]
+            if not sent:
                 continue
-            x, t = run.inflight[int(op[1] * len(run.inflight)) % len(run.inflight)]
+            x, t = sent[int(op[1] * len(sent)) % len(sent)]
             vals = run.vals_of(x)
             news = [v for v in vals if (op[3] * 7919 * (1 + vals.index(v))) % 1 < 0.6] if op[2] == 'success' else []
             run.do_reply(x, t, op[2], news, nonempty=op[4] > 0.07)
         elif kind == 'reply0':
-            if not run.inflight:
+            sent = [u for u in run.inflight if u in run.put]
+            if not sent:
                 continue
-            x, t = run.inflight[0]
+            x, t = sent[0]
             if op[1] == 'success-new':
                 run.do_reply(x, t, 'success', run.vals_of(x))
             else:
                 run.do_reply(x, t, op[1], [])
         elif kind == 'replyL':
-            if not run.inflight:
+            sent = [u for u in run.inflight if u in run.put]
+            if not sent:
                 continue
-            x, t = run.inflight[-1]
+            x, t = sent[-1]
             run.do_reply(x, t, op[1], [])
         elif kind == 'stray':
             # a reply for a unit that is not in flight (protocol violation by a worker): only the
